@@ -1,4 +1,5 @@
 """C09 - reported OPD is the path difference to the chief-ray reference sphere."""
+import copy
 import math
 
 import numpy as np
@@ -32,6 +33,17 @@ def make_distribution(name, n):
     return d
 
 
+def explicit_rear_face(spec):
+    """the lens of `spec` with its (refracting) image surface written as an ordinary surface of the same shape, followed
+    by an image surface of that shape 0 mm behind it in the same medium"""
+    t = copy.deepcopy(spec)
+    ish = t['img'].get('shape') or {}
+    t['surfs'].append(dict(type='standard', R=ish.get('R', GL.INF), k=ish.get('k', 0.0), coef=None, norm=None, t=0.0,
+                           mat=dict(t['img']['mat']), dx=0.0, dy=0.0, rx=0.0, ry=0.0, ap=None, coat=None, stop=False,
+                           hd=t['surfs'][-1].get('hd')))
+    return t
+
+
 def reference_opd(o, spec, Hy, w, Px, Py, n_img, xpl_ref):
     """(W_minus, W_plus): OPD in waves of every sample for the two whole-set branches of the reference sphere,
     plus the per-ray data needed for diagnostics.  Everything is recomputed from recorded points."""
@@ -56,7 +68,7 @@ def reference_opd(o, spec, Hy, w, Px, Py, n_img, xpl_ref):
 
     c_p0, c_d0, c_p, c_d, c_opl = one(np.array([0.0]), np.array([0.0]))
     p0, d0, p, d, opl = one(np.asarray(Px, dtype=float), np.asarray(Py, dtype=float))
-    n0 = float(spec['obj'].get('n', 1.0))
+    n0 = float(GL.media(spec, w)[0][0])
     if not finite:
         # common plane wavefront through the chief ray's launch point
         obj = n0 * np.sum((p0 - c_p0) * d0, axis=0)
@@ -108,7 +120,7 @@ class C09(Check):
             lambda t: GL.remote_stop(t[0], t[1]) if t[2] == 0 else t[0])
         return st.fixed_dictionaries(dict(spec=lens, dist=st.sampled_from(DISTS),
                                           n=st.integers(0, 60), fld=st.integers(0, 5), wl=st.integers(0, 3),
-                                          extras=st.booleans(),
+                                          extras=st.booleans(), img_air=st.integers(0, 3), obj_glass=st.integers(0, 7),
                                           edit=edit_strategy(('index', 'radius', 'thickness', 'conic'), p_none=4)))
 
     def describe(self, case):
@@ -143,6 +155,19 @@ class C09(Check):
             ps0 = GL.parax_sys(spec)
             spec['ftype'] = 'object_height'
             spec['fields'] = [dict(f, y=float(ps0.t_obj) * math.tan(math.radians(f['y']))) for f in spec['fields']]
+        if case.get('img_air') == 0 and spec['surfs'][-1]['mat']['kind'] not in ('air', 'mirror') and \
+                spec['img']['mat']['kind'] != 'air':
+            # the image surface is the rear face of the last glass (image medium left at its default, air): the image
+            # surface refracts
+            spec = copy.deepcopy(spec)
+            spec['img'] = dict(spec['img'], mat=dict(kind='air'))
+        if case.get('obj_glass', 9) < 4 and spec['obj'].get('n', 1.0) != 1.0:
+            # a dispersive object-space medium: a catalogue material instead of a constant index
+            spec = copy.deepcopy(spec)
+            gl = GL.glasses()
+            g = gl[(case['obj_glass'] * 7919 + len(spec['surfs'])) % len(gl)]
+            spec['obj'] = dict(spec['obj'], mat=dict(g), n=GL.mat_index(g, spec['wls'][spec['prim']]))
+            out.cls('dispersive_object_medium')
         out.cls(*GL.spec_classes(spec))
         # optionally the lens is queried (paraxial data, traces, a wavefront), edited through the public setters and only
         # then analysed: everything below is judged against the prescription the Optic has *now*
@@ -159,9 +184,21 @@ class C09(Check):
         Hx, Hy = flds[case['fld'] % len(flds)]
         ns, _ = GL.media(spec, w)
         n_img = ns[-1]
+        o_ref, spec_ref = o, spec
         if ns[-1] != ns[-2]:
+            # the same lens written with the rear face as an explicit surface and the image surface 0 mm behind it, in
+            # the medium behind it: there the image surface does not refract and the reference below applies as it stands
             out.cls('image_surface_refracts')
-            return
+            if spec['img'].get('shape'):
+                # two coincident curved surfaces: the second intersection is at distance 0, which the tracer does not
+                # resolve; the explicit form is only available for a plane image surface
+                out.cls('curved_refracting_image_surface_not_judged')
+                return
+            spec_ref = explicit_rear_face(spec)
+            o_ref = build(spec_ref)
+            ps = GL.parax_sys(spec_ref)
+            ns, _ = GL.media(spec_ref, w)
+            n_img = ns[-1]
         xpl = float(ps.XPL())
         if not math.isfinite(xpl) or abs(xpl) > 1e7:
             out.cls('telecentric_image_space')
@@ -176,13 +213,13 @@ class C09(Check):
         dist = make_distribution(case['dist'], case['n'])
         out.cls('dist_' + case['dist'])
         Px, Py = np.array(dist.x, dtype=float), np.array(dist.y, dtype=float)
-        Wm, Wp, opl = reference_opd(o, spec, float(Hy), w, Px, Py, n_img, xpl)
+        Wm, Wp, opl = reference_opd(o_ref, spec_ref, float(Hy), w, Px, Py, n_img, xpl)
         # the reference sphere must enclose the bundle at the image surface (an image is formed near the image surface);
         # otherwise "the" intersection with the sphere is ambiguous ray by ray and no OPD is defined by the property
-        sg_ = o.surface_group
-        o.trace_generic(np.zeros(1), np.array([float(Hy)]), np.zeros(1), np.zeros(1), w)
+        sg_ = o_ref.surface_group
+        o_ref.trace_generic(np.zeros(1), np.array([float(Hy)]), np.zeros(1), np.zeros(1), w)
         cx, cy, cz = float(sg_.x[-1][0]), float(sg_.y[-1][0]), float(sg_.z[-1][0])
-        o.trace_generic(np.zeros_like(Px), np.full_like(Px, float(Hy)), Px.copy(), Py.copy(), w)
+        o_ref.trace_generic(np.zeros_like(Px), np.full_like(Px, float(Hy)), Px.copy(), Py.copy(), w)
         spread = np.nanmax(np.hypot(np.array(sg_.x[-1]) - cx, np.array(sg_.y[-1]) - cy)) if len(Px) else 0.0
         Rref = math.sqrt(cx ** 2 + cy ** 2 + (cz - (float(np.ravel(sg_.positions)[-1]) + xpl)) ** 2)
         if not (spread < 0.5 * Rref):
@@ -200,11 +237,34 @@ class C09(Check):
         weak = n_img != 1.0 and out.kf_open('C09-image-index')
         if weak:
             out.region('C09-image-index')
-            Wm1, Wp1, _ = reference_opd(o, spec, float(Hy), w, Px, Py, 1.0, xpl)
+            Wm1, Wp1, _ = reference_opd(o_ref, spec_ref, float(Hy), w, Px, Py, 1.0, xpl)
             # weakened relation: distance to the sphere counted with index 1 (what the defective code does)
             Wm, Wp = Wm1, Wp1
         ok_m = np.all(np.abs(W[fin] - Wm[fin]) <= tol)
         ok_p = np.all(np.abs(W[fin] - Wp[fin]) <= tol)
+        if o_ref is not o and not (ok_m or ok_p):
+            # a refracting image surface: the statement does not say on which side of it the reference sphere lives.
+            # The other consistent reading: the sphere in the medium in front of the image surface (its index, the
+            # directions with which the rays arrive, the exit pupil seen from that medium) - which is the OPD of the same
+            # lens whose image medium continues the last medium
+            spec_g = copy.deepcopy(spec)
+            spec_g['img'] = dict(spec_g['img'], mat=dict(spec['surfs'][-1]['mat']))
+            o_g = build(spec_g)
+            xpl_g = float(GL.parax_sys(spec_g).XPL())
+            if math.isfinite(xpl_g) and abs(xpl_g) < 1e7:
+                Wm_g, Wp_g, _ = reference_opd(o_g, spec_g, float(Hy), w, Px, Py, GL.media(spec_g, w)[0][-1], xpl_g)
+                fg = fin & np.isfinite(Wm_g)
+                if np.any(fg) and (np.all(np.abs(W[fg] - Wm_g[fg]) <= tol) or np.all(np.abs(W[fg] - Wp_g[fg]) <= tol)):
+                    ok_m = True
+                    out.cls('sphere_in_front_of_refracting_image_surface')
+                elif out.kf_open('C09-image-surface-refracts'):
+                    # weakened relation of the known finding (what the code does): the exit pupil seen from the medium
+                    # in front of the image surface, the directions and the index of the medium behind it
+                    out.region('C09-image-surface-refracts')
+                    Wm, Wp, _ = reference_opd(o, spec, float(Hy), w, Px, Py, GL.media(spec, w)[0][-1], xpl_g)
+                    fin = np.isfinite(Wm) & np.isfinite(W)
+                    ok_m = np.all(np.abs(W[fin] - Wm[fin]) <= tol)
+                    ok_p = np.all(np.abs(W[fin] - Wp[fin]) <= tol)
         best = Wm if np.nanmax(np.abs(W[fin] - Wm[fin])) <= np.nanmax(np.abs(W[fin] - Wp[fin])) else Wp
         out.expect('opd_is_path_difference_to_reference_sphere', ok_m or ok_p, max_err_waves=float(
             np.nanmax(np.abs(W[fin] - best[fin]))), tol=tol, n_img=n_img, xpl=xpl, Hy=Hy, W=W[fin][:4], ref=best[fin][:4])
